@@ -1,11 +1,13 @@
 package geom
 
+import "math"
+
 // ExactEqualsOption allows the behaviour of the ExactEquals method in the
 // Geometry interface to be modified.
 type ExactEqualsOption func(exactEqualsComparator) exactEqualsComparator
 
 type exactEqualsComparator struct {
-	toleranceSq float64
+	tolerance   float64
 	ignoreOrder bool
 }
 
@@ -22,7 +24,7 @@ func newExactEqualsComparator(opts []ExactEqualsOption) exactEqualsComparator {
 // within the given euclidean distance of each other.
 func ToleranceXY(within float64) ExactEqualsOption {
 	return func(c exactEqualsComparator) exactEqualsComparator {
-		c.toleranceSq = within * within
+		c.tolerance = within
 		return c
 	}
 }
@@ -32,14 +34,15 @@ func (c exactEqualsComparator) eq(a, b Coordinates) bool {
 		return false
 	}
 	asb := a.XY.Sub(b.XY)
-	if c.toleranceSq == 0 {
-		// Without a tolerance, XY must match exactly. The squared distance
-		// can't be used for that, because it underflows to zero for tiny (but
-		// non-zero) differences.
+	if c.tolerance == 0 {
+		// Without a tolerance, XY must match exactly.
 		if asb != (XY{}) {
 			return false
 		}
-	} else if asb.lengthSq() > c.toleranceSq {
+	} else if math.Hypot(asb.X, asb.Y) > c.tolerance {
+		// The distance is compared rather than its square: the squares of
+		// tiny tolerances and distances underflow to zero, and those of huge
+		// ones overflow to infinity.
 		return false
 	}
 	if a.Type.Is3D() && a.Z != b.Z {
